@@ -129,6 +129,16 @@ pub trait Handler: Send + Sync + 'static {
     fn rtr_setup_fails(&self) -> bool {
         false
     }
+
+    /// Returns the forced outcome at a later stage of a validation run.
+    ///
+    /// The stages are `"processed"` (after validation, before cleanup) and
+    /// `"cleaned"` (after cleanup, before the run is finished).
+    fn run_stage_outcome(
+        &self, _cache_dir: &Path, _stage: &'static str
+    ) -> RunOutcome {
+        RunOutcome::Proceed
+    }
 }
 
 
@@ -217,7 +227,62 @@ pub fn manifest_order<T>(
 pub fn run_outcome(cache_dir: &Path) -> RunOutcome {
     match handler() {
         Some(handler) => handler.run_outcome(cache_dir),
-        None => RunOutcome::Proceed
+        None => env_run_outcome()
+    }
+}
+
+/// Returns the forced outcome from the environment.
+///
+/// This is for driving the binary: `VERIF_RUN_OUTCOMES` is a string with
+/// one character per validation run of the process: `o` lets the run
+/// proceed, `r` fails it with a retryable error, `f` with a fatal error.
+/// Runs beyond the end of the string proceed. If `VERIF_RUN_LOG` is set,
+/// a line is appended to that file for every run started.
+fn env_run_outcome() -> RunOutcome {
+    use std::io::Write;
+    use std::sync::atomic::AtomicUsize;
+
+    static RUNS: AtomicUsize = AtomicUsize::new(0);
+
+    let Some(outcomes) = std::env::var_os("VERIF_RUN_OUTCOMES") else {
+        return RunOutcome::Proceed
+    };
+    let idx = RUNS.fetch_add(1, Ordering::SeqCst);
+    let res = match outcomes.as_encoded_bytes().get(idx) {
+        Some(b'r') => RunOutcome::Retry,
+        Some(b'f') => RunOutcome::Fatal,
+        _ => RunOutcome::Proceed,
+    };
+    if let Some(path) = std::env::var_os("VERIF_RUN_LOG") {
+        if let Ok(mut file) = std::fs::OpenOptions::new()
+            .create(true).append(true).open(path)
+        {
+            let _ = writeln!(file, "run {idx} {res:?}");
+        }
+    }
+    res
+}
+
+/// Fails a validation run at the given stage if so requested.
+///
+/// The stage `"start"` asks [`Handler::run_outcome`], all other stages
+/// ask [`Handler::run_stage_outcome`].
+pub fn run_stage(
+    cache_dir: &Path, stage: &'static str
+) -> Result<(), crate::error::RunFailed> {
+    let outcome = if stage == "start" {
+        run_outcome(cache_dir)
+    }
+    else {
+        match handler() {
+            Some(handler) => handler.run_stage_outcome(cache_dir, stage),
+            None => RunOutcome::Proceed,
+        }
+    };
+    match outcome {
+        RunOutcome::Proceed => Ok(()),
+        RunOutcome::Retry => Err(crate::error::RunFailed::retry()),
+        RunOutcome::Fatal => Err(crate::error::RunFailed::fatal()),
     }
 }
 
